@@ -198,10 +198,10 @@ class Monitor:
             self.report("history/overwrite", f"add_block replaced {type(old).__name__} {block.name!r} by a {type(block).__name__}")
 
 
-def run_history(g, payload, hist, rename, acc, fam):
+def run_history(g, payload, hist, rename, acc, fam, shared=False):
     from numba_scfg.core.datastructures.scfg import SCFG
     Monitor.install()
-    scfg = make_scfg(g, payload, rename)
+    scfg = make_scfg(g, payload, rename, shared=shared)
     from ..families import nm as _nm
     names0 = [rename[i] if rename else _nm(i) for i in range(len(g))]
     G0 = {names0[i]: tuple(names0[t] for t in row) for i, row in enumerate(g)}
@@ -214,7 +214,7 @@ def run_history(g, payload, hist, rename, acc, fam):
         acc.viol(PROP, f"{PROP}/{clause}", detail, (g, payload, hist, tuple(sorted((rename or {}).items()))),
                  shape="reloaded" if hist else ("namespace-input" if rename else ""),
                  case=graph_case(g, fam, "history", payload=payload, history=[list(h) for h in hist],
-                                 rename={str(k): v for k, v in (rename or {}).items()}))
+                                 rename={str(k): v for k, v in (rename or {}).items()}, shared_generator=shared))
     Monitor.current = Monitor(scfg, report)
     try:
         for gap in range(GAPS):
@@ -285,7 +285,9 @@ def _work(args):
                 rename = {0: "entry"}
                 rename.update({i + 1: nm for i, nm in enumerate(combo)})
                 run_history(g, "basic", (), rename, acc, fam + "/ns")
-                acc.counters["namespace_inputs"] += 1
+                # the same input constructed with a generator that another graph has used before (name_gen= is public)
+                run_history(g, "basic", (), rename, acc, fam + "/ns@shared", shared=True)
+                acc.counters["namespace_inputs"] += 2
         if len(acc.samples) < 2 and len(g) >= 4:
             acc.samples.append({"family": fam, "graph": [list(r) for r in g], "histories": [[list(h) for h in x] for x in opts["histories"][:5]]})
     return acc
@@ -345,5 +347,5 @@ def replay(case) -> Acc:
     g = tuple(tuple(r) for r in case["graph"])
     hist = tuple(tuple(h) for h in case.get("history", []))
     rename = {int(k): v for k, v in (case.get("rename") or {}).items()} or None
-    run_history(g, case.get("payload", "basic"), hist, rename, acc, case.get("family", "replay"))
+    run_history(g, case.get("payload", "basic"), hist, rename, acc, case.get("family", "replay"), shared=bool(case.get("shared_generator")))
     return acc
